@@ -54,7 +54,7 @@ type WL struct {
 }
 
 var negVariants = []string{"", "", "opt_codec", "opt_level", "opt_shard", "opt_batch", "opt_targets_drop", "opt_targets_add", "opt_targets_reorder", "opt_driver",
-	"opt_salt", "opt_scrub", "opt_scrubcfg", "src_add_node", "src_del_node", "src_add_rel", "stray_file", "stray_file_graphdir", "frag_flip", "frag_trunc", "frag_remove", "frag_swap"}
+	"opt_salt", "opt_scrub", "opt_scrubcfg", "src_add_node", "src_del_node", "src_add_rel", "stray_file", "stray_file_graphdir", "stray_tmp_graphdir", "frag_flip", "frag_trunc", "frag_remove", "frag_swap"}
 
 func gen(r *rand.Rand) WL {
 	w := WL{DB: stor.GenDB(r, 2, 6, 6)}
@@ -460,6 +460,15 @@ func (r *runner) applyNegative(neg string, arg uint32, spec *stor.DBSpec, o *ret
 			return false
 		}
 		os.WriteFile(filepath.Join(dirs[int(arg)%len(dirs)], "nodes-999999.jsonl.bak"), []byte("x"), 0o644)
+	case "stray_tmp_graphdir":
+		// a file with a temp-file suffix that is NOT the interrupted writer's own next-shard temp: still a file the
+		// checkpoint does not account for
+		dirs, _ := filepath.Glob(filepath.Join(r.out, "graphs", "*"))
+		if len(dirs) == 0 {
+			return false
+		}
+		name := []string{"notes.tmp", "nodes-000777.jsonl.tmp", "edges-000777.jsonl.gz.tmp", "backup.json.tmp"}[int(arg/3)%4]
+		os.WriteFile(filepath.Join(dirs[int(arg)%len(dirs)], name), []byte("x"), 0o644)
 	case "frag_flip", "frag_trunc", "frag_remove", "frag_swap":
 		if !hadCk {
 			return false
